@@ -252,6 +252,10 @@ func (x *fsExec) check() (viol []sched.Violation, summary string, nontrivial boo
 		byStream[s.Stream] = append(byStream[s.Stream], s)
 	}
 	nAck, nPut, nCrash, nFault := 0, 0, 0, 0
+	// a failure on a downstream channel: until the task is resumed (or the process restarted) nothing of that task may be
+	// acknowledged on that channel any more (packs in flight on OTHER channels are tolerated)
+	failedChan := map[string]string{} // task|channel -> what failed
+	lastAckChan := ""
 	// root causes that explain a whole family of consequences (reported once, under their own signature):
 	// messages a registration skipped because it subscribed at "latest" (no checkpoint yet), or because of the
 	// time filter of the seek position
@@ -274,6 +278,7 @@ func (x *fsExec) check() (viol []sched.Violation, summary string, nontrivial boo
 		switch e.Kind {
 		case "restart":
 			goneAtStart = e.Detail
+			failedChan = map[string]string{}
 		case "register":
 			msgs := byStream[e.Key]
 			if e.Reg == nil || len(e.Reg.MsgID) == 0 {
@@ -297,16 +302,33 @@ func (x *fsExec) check() (viol []sched.Violation, summary string, nontrivial boo
 			}
 		case "crash":
 			nCrash++
+		case "resume":
+			for k := range failedChan {
+				if strings.HasPrefix(k, e.Key+"|") {
+					delete(failedChan, k)
+				}
+			}
 		case "reject", "put-fail", "ddl-reject":
 			nFault++
 			if e.Kind == "reject" {
 				if ref, ok := x.packEnd[e.Detail]; ok {
 					failedOn[ref.Stream] = true
+					failedChan[x.taskOfColl(ref.Coll)+"|"+e.Key] = fmt.Sprintf("the downstream rejected pack %d of %s at event %d", ref.Pack, ref.Stream, e.N)
 				}
+			}
+			if e.Kind == "put-fail" && lastAckChan != "" {
+				task := strings.SplitN(strings.TrimPrefix(e.Key, "pos:"), "/", 2)[0]
+				failedChan[task+"|"+lastAckChan] = fmt.Sprintf("the store rejected the checkpoint write at event %d", e.N)
 			}
 		case "ack":
 			nAck++
+			lastAckChan = e.Key
 			ref, ok := x.packEnd[e.Pack.EndMsgID]
+			if ok {
+				if why, bad := failedChan[x.taskOfColl(ref.Coll)+"|"+e.Key]; bad {
+					add("C06/emitted-while-paused", "pack %d of %s was sent and acknowledged on %s at event %d although %s and the task has not been resumed", ref.Pack, ref.Stream, e.Key, e.N, why)
+				}
+			}
 			if !ok {
 				add("C05/ack-unknown-pack", "the downstream acknowledged a pack whose end position %q is not the end of any source pack", e.Pack.EndMsgID)
 				continue
